@@ -1198,8 +1198,19 @@ class Evaluator:
                     s2.env[e.target.id] = t
             return outs
         if isinstance(e, (ast.Yield, ast.YieldFrom)):
-            # generator body evaluated as straight-line code (context managers): the yield hands control away and back
-            return [(NONE, st, 'ok')]
+            # generator body evaluated as straight-line code (context managers): the yield hands control away and back;
+            # what is yielded is recorded as an effect ('yield', term, line) for rules about iterators
+            if e.value is None:
+                st.effects.append(('yield', NONE, getattr(e, 'lineno', 0)))
+                return [(NONE, st, 'ok')]
+            outs = []
+            for t, s2, k in self._ev(e.value, st, mod, fi, depth):
+                if k == 'ok':
+                    s2.effects.append(('yield', t, getattr(e, 'lineno', 0)))
+                    outs.append((NONE, s2, 'ok'))
+                else:
+                    outs.append((t, s2, k))
+            return outs
         raise AnalysisError('unsupported expression %s' % type(e).__name__, node=e)
 
     def _scalar_decidable(self, t, st):
